@@ -601,7 +601,12 @@ func (fr *Frame) enterLoop(lp *Loop, ins []edgeIn) (*State, string) {
 	eff := c.eng.loopEffects(fr.fn, lp)
 	preAlloc := c.heapGet(s0, "alloc", allocSort)
 	if eff.all {
-		c.havocAll(s1)
+		c.havocAllBut(s1, eff.preserved(), eff.heaps)
+		for _, h := range sortedKeys(eff.heaps) {
+			if _, ok := s1.heaps[h]; ok && h != "alloc" {
+				c.havocHeap(s1, h)
+			}
+		}
 	} else {
 		for _, h := range sortedKeys(eff.heaps) {
 			if _, known := c.heapSorts[h]; !known {
@@ -627,6 +632,24 @@ func (fr *Frame) enterLoop(lp *Loop, ins []edgeIn) (*State, string) {
 		nv := c.smt.declareFresh("h."+al.Comment, c.sortOf(t))
 		c.smt.assume(c.typeFacts(t, nv), "")
 		s1.cells[v.Addr.CellID] = Val{T: t, Term: nv}
+		if al.Comment == "rangeindex" {
+			// compiler-generated index of `for i := range slice`: starts at -1, is incremented
+			// by one while the incremented value is below the length read before the loop
+			c.smt.assume(app(">=", nv, "(- 1)"), "range index is at least -1")
+			for _, in := range lp.header.Instrs {
+				if b, ok := in.(*ssa.BinOp); ok && b.Op == token.LSS {
+					if add, ok := b.X.(*ssa.BinOp); ok && add.Op == token.ADD {
+						if ld, ok := add.X.(*ssa.UnOp); ok && ld.X == al {
+							if lv, ok := fr.vals[b.Y]; ok && lv.Term != "" {
+								c.smt.assume(app("<", nv, app("imax", lv.Term, "0")), "range index is below the length")
+							} else if k, ok := b.Y.(*ssa.Const); ok {
+								c.smt.assume(app("<", nv, app("imax", c.constVal(k).Term, "0")), "range index is below the length")
+							}
+						}
+					}
+				}
+			}
+		}
 	}
 	// ghost state modified in the loop: visited sets of range loops inside
 	for g := range s1.ghost {
